@@ -4,12 +4,15 @@ import CoupeModel.Driver.Util
 namespace Coupe.Driver.C20
 open Coupe.Prologue Coupe.Driver
 
-/-- `T::from_f64(sum.to_f64().unwrap() * tolerance)` for `T = i64` is `Some`
-(num-traits: `None` outside the `i64` range or for NaN). -/
+/-- `T::from_f64(bound).or_else(|| (bound >= sum_f64).then_some(sum))` for `T = i64` is `Some`,
+where `sum_f64 = sum.to_f64()` and `bound = sum_f64 * tolerance` (num-traits: `from_f64` is `None`
+outside the `i64` range or for NaN; the fall-back gives the sum when the bound is at least the
+rounded sum, which covers an infinite tolerance and a sum that rounds up to 2^63). -/
 def tolConvertible (sum : Int) (tolBits : Nat) : Bool :=
-  let x := Float.ofInt sum * Float.ofBits (UInt64.ofNat tolBits)
+  let sf := Float.ofInt sum
+  let x := sf * Float.ofBits (UInt64.ofNat tolBits)
   if x.isNaN then false
-  else if x < -9223372036854775808.0 || x ≥ 9223372036854775808.0 then false
+  else if x < -9223372036854775808.0 || x ≥ 9223372036854775808.0 then x ≥ sf
   else true
 
 def algoOfString : String → Option Algo
